@@ -1,6 +1,7 @@
 #![allow(dead_code)]
 mod dump;
 mod gen_c06;
+mod gen_c07;
 mod gen_c12;
 mod util;
 
@@ -21,6 +22,7 @@ fn main() {
         }
         Some("gen") => match args.get(2).map(|s| s.as_str()) {
             Some("c12") => gen_c12::gen(&mut out, seed, thorough),
+            Some("c07") => gen_c07::gen(&mut out, seed, thorough),
             Some("c06") => gen_c06::gen(&mut out, seed, thorough),
             _ => {
                 eprintln!("unknown generator");
